@@ -87,6 +87,10 @@ pub enum Schedule {
         /// percent: relative eagerness of the command worker (0 = 100); small values let the queue lag behind the callers
         #[serde(default)]
         worker_pct: u32,
+        /// percent: eagerness of a caller whose send finds the command queue FULL (0: such a send is never entered).
+        /// The send must block until the worker makes room; the controller watches that it does.
+        #[serde(default)]
+        full_send_pct: u32,
     },
     /// explicit list of (actor, site) steps; "env" steps carry the advance in `d`
     #[serde(rename = "list")]
@@ -197,6 +201,9 @@ pub struct StepRec {
     pub freq: Vec<Vec<i64>>,
     pub pc: BTreeMap<String, String>,
     pub s: StateRec,
+    /// 1: during this (worker) step a sender that was blocked on the full queue came loose and pushed its command;
+    /// its own step record follows
+    pub unb: i64,
     /// reset only
     #[serde(skip_serializing_if = "Option::is_none")]
     pub cfg: Option<Cfg>,
